@@ -121,6 +121,28 @@ def oracle(line, out, in_scope, notes=None):
     return None
 
 
+def coq_oracle_queries(line, out):
+    """for every step whose dump before, dump after and edit value are printed in full: a query for
+    the EXTRACTED specification (model command c04o) and what the implementation showed"""
+    if "[" not in out.split(" | ")[0]:
+        return []
+    o = parse_out(out)
+    if o is None:
+        return []
+    pre, edits, _ = gen_edit.split_case(line)
+    if len(o["steps"]) != len(edits) + 1:
+        return []
+    qs = []
+    for i, e in enumerate(edits):
+        before, after = o["steps"][i][1], o["steps"][i + 1][1]
+        val = e[-1] if e[0] != "R" else "-"
+        if "#" in before or "#" in after or (val.startswith("@") and int(val[1:].split(",")[0]) > 48):
+            continue
+        qs.append(("c04o %s %s %s" % (pre[3], before, " ".join(e)),
+                   "%d [%s]" % (o["steps"][i + 1][0], after), i + 1))
+    return qs
+
+
 def scope_of(model_out):
     """the wire/re-parse part of the property presupposes a message the parser accepts (option
     lengths within their limits, Empty message empty): per step (index 0 = start, i = after edit
@@ -338,6 +360,26 @@ def main(run):
                               "coap_pdu_check_resize differs from the proved model",
                               "case: %s\nmodel: %s\nimpl : %s\n" % (ln, mo, co),
                               tag="resize%d" % nbad, no_input=not bad)
+    # the extracted Coq specification as the oracle, on the implementation's own dumps (all steps
+    # whose values are printed in full)
+    qs = []
+    for i, ln in enumerate(cases[:nrs]):
+        for q, shown, step in coq_oracle_queries(ln, oc[i]):
+            qs.append((q, shown, step, ln))
+    if qs:
+        ans, _ = vlib.run_lines_robust(model, [q[0] for q in qs])
+        nq = 0
+        for (q, shown, step, ln), a in zip(qs, ans):
+            if a != shown:
+                nq += 1
+                nbad += 1
+                if nq <= 2:
+                    run.violation("implementation violates the property (extracted specification as "
+                                  "oracle): edit %d gives %s, the specification gives %s" % (step, shown, a),
+                                  "case: %s\nquery: %s\nimpl : %s\nspec : %s\n" % (ln, q, shown, a),
+                                  tag="coqoracle%d" % nq)
+        run.cov["coq_oracle_steps"] = len(qs)
+        run.cov["coq_oracle_failures"] = nq
     run.cov["disagreements"] = nbad
     if notrun and not nbad:
         run.violation("the C driver could not complete %d cases (too many crashes)" % notrun,
